@@ -164,6 +164,17 @@ def run(case, ctx):
                     check(tuple(got) == e, "local-eth", "got %r want %r" %
                           (got, e), chip=(x, y), **where)
                     check(e in exp, "oracle", "eth chip not in list")
+                else:
+                    # a position whose board's Ethernet chip lies outside
+                    # the (ragged) machine: whatever is answered for it is
+                    # not judged - but asking is harmless and must not
+                    # change what is answered for any other chip
+                    try:
+                        rooted(ctx, g.spinn5_local_eth_coord, (x, y, w, h),
+                               rx, ry, x + 2 * y)
+                    except Exception:
+                        pass
+                    ctx.hit("asked_about_a_board_without_ethernet_chip")
                 for l in links:
                     dx, dy = VEC[int(l)]
                     leaves = (bx + dx, by + dy) not in SHAPE
